@@ -8,6 +8,7 @@
    timestamp and timestamp presence, message counter, payload byte order, extended header, payload. *)
 From Coq Require Import List NArith Bool Lia.
 From AdltV Require Import Base.Res Base.MachInt Dlt.Frame Dlt.FrameProofs Dlt.Iter Dlt.IterProofs Dlt.IterTotal Dlt.Write Dlt.WriteProofs.
+From AdltV Require Import Dlt.WritePipeline Dlt.WritePipelineProofs.
 Import ListNotations.
 Open Scope N_scope.
 
@@ -104,6 +105,70 @@ Proof.
   exists bytes, ms', st'. repeat split; try assumption. rewrite H4, Hmap. reflexivity.
 Qed.
 
+(* the pipeline of `adlt convert <in> -o <out>` (unfiltered, unsorted) as a whole -- Dlt/WritePipeline.v: reader, the
+   lifecycle stage every message passes through (the complete detector model of Lifecycle/Model.v: buffering of the
+   messages of unconfirmed lifecycles, merges, flushes, confirmations, end-of-stream delivery), writer.
+   Whatever the lifecycle history of the messages is, the stage hands on every message once, in the order received
+   (C05's forwarding theorem); [lifecycle_stage] looks the delivered messages up by index, so: pairwise different indices *)
+Theorem C02_lifecycle_stage_keeps_every_message_in_order (ms : list msg) :
+  NoDup (map m_index ms) -> lifecycle_stage ms = ms.
+Proof. exact (lifecycle_stage_id ms). Qed.
+
+(* the clause "exporting an unfiltered file preserves every message in order and exporting the export is byte-identical"
+   for the modelled binary: for ANY well-formed byte file whose storage headers have micros < 10^6, `convert -o` neither
+   panics nor fails; the export is read back completely, nothing skipped, with the messages of the input in input order
+   (same fields, same indices); and `convert -o` of the export writes the export again *)
+Theorem C02_convert_export_roundtrip (data : bytes) ms st rest :
+  wf_bytes data -> file_micros_ok data -> run_iter 0 data = Ok (ms, st, rest) ->
+  exists bytes ms' st',
+    convert_o data = Ok (WOk bytes) /\
+    run_iter 0 bytes = Ok (ms', st', []) /\ Forall2 same_fields ms ms' /\ map m_index ms' = map m_index ms /\
+    i_skipped st' = 0 /\ i_processed st' = blen bytes /\
+    convert_o bytes = Ok (WOk bytes).
+Proof.
+  intros Hd Hm Hr.
+  assert (H0 : 0 <= u32max) by (vm_compute; discriminate).
+  destruct (C02_file_export_roundtrip 0 data ms st rest H0 Hd Hm Hr) as (bytes & ms' & st' & H1 & H2 & H3 & H4 & H5 & H6 & H7).
+  exists bytes, ms', st'.
+  destruct (run_iter_indices 0 data ms st rest H0 Hr) as [_ Hi].
+  destruct (run_iter_indices 0 bytes ms' st' [] H0 H2) as [_ Hi'].
+  rewrite (convert_o_is_write_all data ms st rest Hr Hi), (convert_o_is_write_all bytes ms' st' [] H2 Hi').
+  repeat split; assumption.
+Qed.
+
+(* non-vacuity of the pipeline statements: one ECU; a lifecycle confirmed by its timestamp span (messages 0, 1), ONE message
+   that looks like a new boot (2: tentative lifecycle 2, the message is queued), a late message with a large timestamp (3)
+   that moves the tentative start back into lifecycle 1: merge into the published predecessor, queue flushed in front of
+   the late message; a regular message (4).  The file is in the writer's normal form, its export is the file itself. *)
+Definition ex_pipeline_msgs : list msg :=
+  map (fun x : N * N * N =>
+         let '(i, rt, ts) := x in
+         {| m_index := i; m_reception_us := rt; m_ecu := (69, 67, 85, 49); m_timestamp := ts;
+            m_std := {| htyp := 48; mcnt := i; len := 8 |}; m_ext := None; m_payload := [] |})
+      [(0, 1000001000000, 10000); (1, 1000070000000, 700000); (2, 1000085000000, 10000);
+       (3, 1000086000000, 500000); (4, 1000087000000, 870000)].
+
+Example C02_pipeline_nonvacuous :
+  exists data,
+    write_all ex_pipeline_msgs = Ok (WOk data) /\ wf_bytes data /\ blen data = 120 /\
+    (exists st, run_iter 0 data = Ok (ex_pipeline_msgs, st, [])) /\
+    (* after message 2: lifecycle 2 is buffered with one queued message; after message 3: nothing buffered, nothing queued *)
+    (let d3 := fst (LM.run (LM.init 1 []) (map lc_view (firstn 3 ex_pipeline_msgs))) in
+     LM.buffered d3 = [2] /\ length (LM.queue d3) = 1%nat) /\
+    (let d4 := fst (LM.run (LM.init 1 []) (map lc_view (firstn 4 ex_pipeline_msgs))) in
+     LM.buffered d4 = [] /\ LM.queue d4 = [] /\ LM.next_id d4 = 3) /\
+    map (fun x => (LM.m_index (fst x), LM.m_lc (fst x))) (fst (LM.detect 1 [] (map lc_view ex_pipeline_msgs)))
+      = [(0, 1); (1, 1); (2, 1); (3, 1); (4, 1)] /\
+    convert_o data = Ok (WOk data).
+Proof.
+  destruct (write_all ex_pipeline_msgs) as [[data|p]| |] eqn:E; try (vm_compute in E; discriminate).
+  exists data. vm_compute in E. inversion E; subst data. clear E.
+  split; [reflexivity|]. split; [repeat constructor|]. split; [reflexivity|].
+  split; [eexists; vm_compute; reflexivity|].
+  split; [vm_compute; split; reflexivity|]. split; [vm_compute; repeat split; reflexivity|].
+  split; vm_compute; reflexivity.
+Qed.
+
 (* byte-level integer codecs the above rests on *)
 Theorem C02_u16_be_roundtrip v : v <= 65535 -> match be16_bytes v with [a; b] => be16 a b = v | _ => False end.
 Proof. intros H. cbn. apply be16_bytes_dec; exact H. Qed.
@@ -148,6 +213,9 @@ Print Assumptions C02_write_normal_form.
 Print Assumptions C02_export_roundtrip.
 Print Assumptions C02_file_messages_parsed.
 Print Assumptions C02_file_export_roundtrip.
+Print Assumptions C02_lifecycle_stage_keeps_every_message_in_order.
+Print Assumptions C02_convert_export_roundtrip.
+Print Assumptions C02_pipeline_nonvacuous.
 Print Assumptions C02_u16_be_roundtrip.
 Print Assumptions C02_u32_le_roundtrip.
 Print Assumptions C02_u32_be_roundtrip.
